@@ -171,14 +171,17 @@ example : printParsed [⟨.func, false⟩, ⟨.global, false⟩] = .ok [⟨false
 
 /-- the translation of a function body succeeds only when its explicit IDs (parameters, block labels, instruction and terminator results, in
     LLVM's order) are the numbers LLVM gives them -/
-theorem core3_accepts_only_llvm_numbering (f g : Core3.Func) (h : Core3.translate f = some g) :
+theorem core3_accepts_only_llvm_numbering_in (ge : Core3.GEnv) (f g : Core3.Func) (h : Core3.translateIn ge f = some g) :
     LLVMSpec.agreesFrom 0 (Core3.slotsOf f) = true := by
-  unfold Core3.translate at h
+  unfold Core3.translateIn at h
   have hp := parser_accepts_exactly_llvm (Core3.slotsOf f) 0
   unfold parseAssign at h
   rw [hp] at h
   by_cases ha : LLVMSpec.agreesFrom 0 (Core3.slotsOf f) = true
   · exact ha
   · simp [ha] at h
+
+theorem core3_accepts_only_llvm_numbering (f g : Core3.Func) (h : Core3.translate f = some g) :
+    LLVMSpec.agreesFrom 0 (Core3.slotsOf f) = true := core3_accepts_only_llvm_numbering_in _ f g h
 
 end Llir.Props.C08
